@@ -14,7 +14,7 @@ OPERATORS = ["+", "-", "*", "/", "<<", ">>"]
 LITERALS = ["0", "1", "2", "010", "0x10", "4294967295", "4294967296", "99999999999999999999999", "65536",
             "0xFFFFFFFFFF", "00", "08"]
 SPECIAL_INSERTS = ["/", "<<", ">>", "-", "*", "(", ")", "0", "/ 0", "<< 70", "- 5", "/ 3", ";", "{", "}", "#", "@",
-                   "<", ">", "...", ",", ":", "="]
+                   "<", ">", "...", ",", ":", "=", "/*", "/*", "*/", "//", "/* x", "\""]
 
 
 def tokens(text):
